@@ -190,7 +190,7 @@ def compare_levels(d_out: str, n_out: str, files: dict[str, str]) -> list[tuple[
 
 def run(ctx: common.Ctx) -> None:
     quick = ctx.tier == "quick"
-    n_corpus, n_mut = (2200, 1500) if quick else (9000, 12000)
+    n_corpus, n_mut = (2200, 1500) if quick else (5000, 5000)
     scale = float(os.environ.get("VERIF_SCALE", "1"))
     n_corpus, n_mut = int(n_corpus * scale), int(n_mut * scale)
     ctx.rule = ("corpus programs without type comments (check-*, parse*, semanal-*, pythoneval), 35 unusual-layout snippets x target "
